@@ -11,8 +11,8 @@ import (
 func init() {
 	oracles["C12"] = oracleC12
 	props["C12"] = &propDef{
-		Level: "model_checking",
-		Rule:  "reference model = consecutive-unhealthy counter of the current term (reset by a healthy result and by a new term); every health-result sequence over {ok,bad,slow} of length <= L x MaxConsecutiveFailures in {0 (=>3),1,2,3,4} is executed on the real election (one instance, virtual time, continued across terms until re-election) and compared tick by tick: demotion by the health mechanism exactly when the reference count reaches the threshold, OnDemote ran, each Check context expires within 100ms, re-election afterwards. states = distinct reference states (term, count, position, leading), transitions = health ticks executed on the implementation, traces_validated_against_impl = sequences executed",
+		Level:  "model_checking",
+		Rule:   "reference model = consecutive-unhealthy counter of the current term (reset by a healthy result and by a new term); every health-result sequence over {ok,bad,slow} of length <= L x MaxConsecutiveFailures in {0 (=>3),1,2,3,4} is executed on the real election (one instance, virtual time, continued across terms until re-election) and compared tick by tick: demotion by the health mechanism exactly when the reference count reaches the threshold, OnDemote ran, each Check context expires within 100ms, re-election afterwards. states = distinct reference states (term, count, position, leading), transitions = health ticks executed on the implementation, traces_validated_against_impl = sequences executed",
 		Assume: []string{"single instance, K1 timing (H=200ms, TTL=600ms)", "a slow check returns false at its context deadline"},
 		Plan:   c12Plan,
 		After:  c12After,
